@@ -133,12 +133,14 @@ CHECKS = {
     ),
     "C04": dict(
         level="exploration",
-        rule=("the C03 reorg state machine over configurations built to share: 1-4 declarations (log/tx) that may share a destination table (same identity columns), the same event with different selections and filters, one or two sources with different chains, all tasks of a source on one client (shared segment/head caches); actions grow / step / reorg (between and inside steps) / restart. "
+        rule=("Isolation: the C03 reorg state machine over configurations built to share: 1-4 declarations (log/tx) that may share a destination table (same identity columns), the same event with different selections and filters, one or two sources with different chains, all tasks of a source on one client (shared segment/head caches); actions grow / step / reorg (between and inside steps) / restart (with edited batch size) / prune. "
               "Oracle: frame condition on every step — the commit records of a step of pair p add/remove only rows and positions stamped (p.source, p.integration) — and at quiescence every pair separately equals the projection of its source's canonical chain. "
-              "non-trivial = >= 2 pairs AND a pair deleted rows (reorg unwind) or everything was restarted."),
+              "non-trivial = >= 2 pairs AND a pair deleted rows (reorg unwind) or everything was restarted. "
+              "Concurrent: 1-4 pairs (log/tx/trace, shared table/event/filters, one source client with a 1 ms head poller) each run Converge in its own goroutine (GOMAXPROCS 2/4/8) while the chain grows for 3-8 rounds; afterwards (sequential settle) every pair's table must equal its projection and every recorded position must carry a head (src_num, src_hash) the source announced; non-trivial = >= 2 pairs and rows were written."),
         assumptions=["fakepg/sim/model as for C01/C03", "open finding C16/shared-table-unique-key-first-wins: declarations with different identity columns do not share a table (excluded by construction, counted)"],
         units=[
             R("TestC04_Isolation", 4800, 60000, shards=16),
+            R("TestC04_Concurrent", 1600, 24000, shards=16),
         ],
     ),
     "C02": dict(
